@@ -11,7 +11,7 @@ spec: {"id": any, "service_module": "library", "client": "LibraryClient"|"Librar
 stdout (last line): [{"id":..., "ok": bool, "result": ..., "error": ..., "calls": [{"path","requests":[b64],"metadata"}], "signature": [[name, kind, default]]}]
 
 Import errors of the emitted package are reported once as {"import_error": ...} for every spec."""
-import asyncio, inspect, json, sys, traceback
+import asyncio, importlib, inspect, json, sys, traceback
 from gv.impl import drivelib as D
 
 
@@ -110,10 +110,53 @@ def make_reply(spec):
     return rep
 
 
-def run_sync(spec, gs, pkg):
+def factory_client(pkg_name, service_module, client_name, kind, target):
+    """client whose transport gets a channel FACTORY (channel=<callable>) and the loopback address as host: the transport
+    itself calls the factory, with the credentials and the channel options it wants (message size limits among them)"""
+    import grpc
+    from google.auth.credentials import AnonymousCredentials
+    svc = importlib.import_module(f"{pkg_name}.services.{service_module}")
+    tm = D.transports_module(pkg_name, service_module)
+    suffix = {"grpc": "GrpcTransport", "grpc_asyncio": "GrpcAsyncIOTransport"}[kind]
+    tcls = getattr(tm, sorted([n for n in dir(tm) if n.endswith(suffix) and not n.startswith("_")], key=len)[0])
+    seen = {}
+
+    def factory(host, **kw):
+        seen["options"] = [list(o) for o in (kw.get("options") or [])]
+        seen["host"] = host
+        mk = grpc.aio.insecure_channel if kind == "grpc_asyncio" else grpc.insecure_channel
+        return mk(host, options=kw.get("options"))
+    tr = tcls(host=target, credentials=AnonymousCredentials(), channel=factory)
+    return getattr(svc, client_name)(transport=tr), seen
+
+
+def get_client(spec, gs, hs, pkg, rec):
+    if spec.get("channel") == "factory":
+        client, seen = factory_client(pkg, spec["service_module"], spec["client"], spec["transport"], gs.target)
+        rec["factory"] = seen
+        return client
+    return D.make_client(pkg, spec["service_module"], spec["client"], spec["transport"], gs.target, hs.host if hs else None)
+
+
+def big_reply(spec):
+    """a reply with one string field of the given size, built here so that megabytes do not travel through the JSON pipes"""
+    b = spec["big_reply"]
+    cls = D.resolve(b["cls"])
+    m = cls()
+    setattr(m, b["field"], "x" * b["size"])
+    return cls.serialize(m) if hasattr(cls, "serialize") else m.SerializeToString()
+
+
+def big_result(spec, values):
+    b = spec["big_reply"]
+    return {"kind": "big", "n": len(values), "lengths": [len(getattr(v, b["field"], "")) if v is not None else -1 for v in values],
+            "all_x": all(v is not None and set(getattr(v, b["field"])) <= {"x"} for v in values)}
+
+
+def run_sync(spec, gs, pkg, hs=None):
     rec = spec["_rec"]
     rec["stage"] = "import"
-    client = D.make_client(pkg, spec["service_module"], spec["client"], spec["transport"], gs.target, None)
+    client = get_client(spec, gs, hs, pkg, rec)
     fn = getattr(client, spec["method"])
     rec["stage"] = "build"
     if spec.get("signature"):
@@ -124,7 +167,9 @@ def run_sync(spec, gs, pkg):
     kw.setdefault("timeout", spec.get("deadline", 8.0))   # a wrong arity must fail, not hang
     rec["stage"] = "call"
     res = fn(**kw)
-    if spec.get("consume", "value") == "stream":
+    if spec.get("big_reply"):
+        rec["result"] = big_result(spec, list(res) if spec.get("consume") == "stream" else [res])
+    elif spec.get("consume", "value") == "stream":
         rec["result"] = {"kind": "stream", "items": [D.encode_value(x) for x in res]}
     elif spec.get("consume") == "ignore":
         rec["result"] = {"kind": "ignored", "type": type(res).__module__ + "." + type(res).__qualname__}
@@ -136,7 +181,7 @@ def run_sync(spec, gs, pkg):
 async def run_async(spec, gs, pkg):
     rec = spec["_rec"]
     rec["stage"] = "import"
-    client = D.make_client(pkg, spec["service_module"], spec["client"], spec["transport"], gs.target, None)
+    client = get_client(spec, gs, None, pkg, rec)
     fn = getattr(client, spec["method"])
     rec["stage"] = "build"
     if spec.get("signature"):
@@ -149,7 +194,15 @@ async def run_async(spec, gs, pkg):
     res = fn(**kw)
     if inspect.isawaitable(res):
         res = await res
-    if spec.get("consume", "value") == "stream":
+    if spec.get("big_reply"):
+        if spec.get("consume") == "stream":
+            if inspect.isawaitable(res):
+                res = await res
+            vals = [x async for x in res]
+        else:
+            vals = [res]
+        rec["result"] = big_result(spec, vals)
+    elif spec.get("consume", "value") == "stream":
         if inspect.isawaitable(res):
             res = await res
         rec["result"] = {"kind": "stream", "items": [D.encode_value(x) async for x in res]}
@@ -170,9 +223,12 @@ def main():
     for p in payload.get("extra_paths", []):
         sys.path.insert(0, p)
     gs = D.GrpcLoopback()
+    hs = D.HttpLoopback() if any(c.get("transport") == "rest" for c in payload["calls"]) else None
     results = []
     for spec in payload["calls"]:
         gs.default_reply = make_reply(spec)
+        if spec.get("big_reply"):
+            gs.default_reply = {"messages": [D.b64(big_reply(spec))] * spec.get("big_count", 1)}
         gs.set_script({})
         rec = {"id": spec.get("id"), "ok": True}
         spec["_rec"] = rec
@@ -180,14 +236,18 @@ def main():
             if spec["transport"] == "grpc_asyncio":
                 asyncio.run(asyncio.wait_for(run_async(spec, gs, payload["package"]), spec.get("timeout", 12)))
             else:
-                run_sync(spec, gs, payload["package"])
+                run_sync(spec, gs, payload["package"], hs)
         except BaseException as e:  # noqa  (SyntaxError/ImportError of the emitted package included)
             rec["ok"] = False
             rec["error"] = D.exc_info(e)
             rec["traceback"] = traceback.format_exc()[-1200:]
         rec["calls"] = [{"path": c["path"], "requests": c["requests"], "metadata": c["metadata"]} for c in gs.take_calls()]
+        if hs is not None:
+            rec["http_calls"] = hs.take_calls()
         results.append(rec)
     gs.stop()
+    if hs is not None:
+        hs.stop()
     print()
     print(json.dumps(results))
 
